@@ -15,7 +15,10 @@ pub fn specs() -> &'static Vec<FieldSpec> {
 }
 
 pub fn spec_of(ty: &str) -> &'static FieldSpec {
-    specs().iter().find(|s| s.ty == ty).unwrap_or_else(|| panic!("no spec for {ty}"))
+    specs()
+        .iter()
+        .find(|s| s.ty == ty)
+        .unwrap_or_else(|| panic!("no spec for {ty}"))
 }
 
 pub fn spec_of_tag(tag: &str) -> Option<&'static FieldSpec> {
@@ -24,29 +27,131 @@ pub fn spec_of_tag(tag: &str) -> Option<&'static FieldSpec> {
 
 /// enum families: (enum type, base tag, [(letter, concrete type)])
 pub const FAMILIES: &[(&str, &str, &[(&str, &str)])] = &[
-    ("Field25AccountIdentification", "25", &[("", "Field25NoOption"), ("P", "Field25P")]),
-    ("Field32", "32", &[("A", "Field32A"), ("B", "Field32B"), ("C", "Field32C"), ("D", "Field32D")]),
+    (
+        "Field25AccountIdentification",
+        "25",
+        &[("", "Field25NoOption"), ("P", "Field25P")],
+    ),
+    (
+        "Field32",
+        "32",
+        &[
+            ("A", "Field32A"),
+            ("B", "Field32B"),
+            ("C", "Field32C"),
+            ("D", "Field32D"),
+        ],
+    ),
     ("Field32AB", "32", &[("A", "Field32A"), ("B", "Field32B")]),
-    ("Field32AmountCD", "32", &[("C", "Field32C"), ("D", "Field32D")]),
-    ("Field50InstructingParty", "50", &[("C", "Field50C"), ("L", "Field50L")]),
-    ("Field50OrderingCustomerFGH", "50", &[("F", "Field50F"), ("G", "Field50G"), ("H", "Field50H")]),
-    ("Field50OrderingCustomerAFK", "50", &[("A", "Field50A"), ("F", "Field50F"), ("K", "Field50K")]),
-    ("Field50OrderingCustomerNCF", "50", &[("", "Field50NoOption"), ("C", "Field50C"), ("F", "Field50F")]),
-    ("Field50Creditor", "50", &[("A", "Field50A"), ("K", "Field50K")]),
-    ("Field52AccountServicingInstitution", "52", &[("A", "Field52A"), ("C", "Field52C")]),
-    ("Field52OrderingInstitution", "52", &[("A", "Field52A"), ("D", "Field52D")]),
-    ("Field52CreditorBank", "52", &[("A", "Field52A"), ("C", "Field52C"), ("D", "Field52D")]),
-    ("Field52DrawerBank", "52", &[("A", "Field52A"), ("B", "Field52B"), ("D", "Field52D")]),
-    ("Field53SenderCorrespondent", "53", &[("A", "Field53A"), ("B", "Field53B"), ("D", "Field53D")]),
-    ("Field54ReceiverCorrespondent", "54", &[("A", "Field54A"), ("B", "Field54B"), ("D", "Field54D")]),
-    ("Field55ThirdReimbursementInstitution", "55", &[("A", "Field55A"), ("B", "Field55B"), ("D", "Field55D")]),
-    ("Field56Intermediary", "56", &[("A", "Field56A"), ("C", "Field56C"), ("D", "Field56D")]),
-    ("Field56IntermediaryAD", "56", &[("A", "Field56A"), ("D", "Field56D")]),
-    ("Field57", "57", &[("A", "Field57A"), ("B", "Field57B"), ("C", "Field57C"), ("D", "Field57D")]),
-    ("Field57DebtInstitution", "57", &[("A", "Field57A"), ("B", "Field57B"), ("D", "Field57D")]),
+    (
+        "Field32AmountCD",
+        "32",
+        &[("C", "Field32C"), ("D", "Field32D")],
+    ),
+    (
+        "Field50InstructingParty",
+        "50",
+        &[("C", "Field50C"), ("L", "Field50L")],
+    ),
+    (
+        "Field50OrderingCustomerFGH",
+        "50",
+        &[("F", "Field50F"), ("G", "Field50G"), ("H", "Field50H")],
+    ),
+    (
+        "Field50OrderingCustomerAFK",
+        "50",
+        &[("A", "Field50A"), ("F", "Field50F"), ("K", "Field50K")],
+    ),
+    (
+        "Field50OrderingCustomerNCF",
+        "50",
+        &[
+            ("", "Field50NoOption"),
+            ("C", "Field50C"),
+            ("F", "Field50F"),
+        ],
+    ),
+    (
+        "Field50Creditor",
+        "50",
+        &[("A", "Field50A"), ("K", "Field50K")],
+    ),
+    (
+        "Field52AccountServicingInstitution",
+        "52",
+        &[("A", "Field52A"), ("C", "Field52C")],
+    ),
+    (
+        "Field52OrderingInstitution",
+        "52",
+        &[("A", "Field52A"), ("D", "Field52D")],
+    ),
+    (
+        "Field52CreditorBank",
+        "52",
+        &[("A", "Field52A"), ("C", "Field52C"), ("D", "Field52D")],
+    ),
+    (
+        "Field52DrawerBank",
+        "52",
+        &[("A", "Field52A"), ("B", "Field52B"), ("D", "Field52D")],
+    ),
+    (
+        "Field53SenderCorrespondent",
+        "53",
+        &[("A", "Field53A"), ("B", "Field53B"), ("D", "Field53D")],
+    ),
+    (
+        "Field54ReceiverCorrespondent",
+        "54",
+        &[("A", "Field54A"), ("B", "Field54B"), ("D", "Field54D")],
+    ),
+    (
+        "Field55ThirdReimbursementInstitution",
+        "55",
+        &[("A", "Field55A"), ("B", "Field55B"), ("D", "Field55D")],
+    ),
+    (
+        "Field56Intermediary",
+        "56",
+        &[("A", "Field56A"), ("C", "Field56C"), ("D", "Field56D")],
+    ),
+    (
+        "Field56IntermediaryAD",
+        "56",
+        &[("A", "Field56A"), ("D", "Field56D")],
+    ),
+    (
+        "Field57",
+        "57",
+        &[
+            ("A", "Field57A"),
+            ("B", "Field57B"),
+            ("C", "Field57C"),
+            ("D", "Field57D"),
+        ],
+    ),
+    (
+        "Field57DebtInstitution",
+        "57",
+        &[("A", "Field57A"), ("B", "Field57B"), ("D", "Field57D")],
+    ),
     ("Field58", "58", &[("A", "Field58A"), ("D", "Field58D")]),
-    ("Field59", "59", &[("A", "Field59A"), ("F", "Field59F"), ("", "Field59NoOption")]),
-    ("Field59Debtor", "59", &[("A", "Field59A"), ("", "Field59NoOption")]),
+    (
+        "Field59",
+        "59",
+        &[
+            ("A", "Field59A"),
+            ("F", "Field59F"),
+            ("", "Field59NoOption"),
+        ],
+    ),
+    (
+        "Field59Debtor",
+        "59",
+        &[("A", "Field59A"), ("", "Field59NoOption")],
+    ),
     ("Field60", "60", &[("F", "Field60F"), ("M", "Field60M")]),
     ("Field62", "62", &[("F", "Field62F"), ("M", "Field62M")]),
 ];
@@ -64,24 +169,66 @@ pub struct FieldCase {
 pub fn gen_valid(ty: &str, src: &mut Src) -> FieldCase {
     let sp = spec_of(ty);
     let out = sp.g.generate(src);
-    FieldCase { ty: ty.to_string(), content: out.text, origin: "valid".into(), comps: out.comps }
+    FieldCase {
+        ty: ty.to_string(),
+        content: out.text,
+        origin: "valid".into(),
+        comps: out.comps,
+    }
 }
 
 const SUBST: &[(&str, &str)] = &[
-    ("lower", "q"), ("digit", "7"), ("upper", "Q"), ("space", " "), ("tilde", "~"), ("brace", "{"), ("nonascii2", "é"),
-    ("nonascii3", "€"), ("arabic-digit", "٣"), ("fullwidth-digit", "５"), ("slash", "/"), ("colon", ":"), ("comma", ","),
-    ("tab", "\t"), ("nul", "\u{0}"), ("nonascii4", "𝟙"),
+    ("lower", "q"),
+    ("digit", "7"),
+    ("upper", "Q"),
+    ("space", " "),
+    ("tilde", "~"),
+    ("brace", "{"),
+    ("nonascii2", "é"),
+    ("nonascii3", "€"),
+    ("arabic-digit", "٣"),
+    ("fullwidth-digit", "５"),
+    ("slash", "/"),
+    ("colon", ":"),
+    ("comma", ","),
+    ("tab", "\t"),
+    ("nul", "\u{0}"),
+    ("nonascii4", "𝟙"),
 ];
 
 pub const BAD_DATES: &[(&str, &str)] = &[
-    ("month13", "241301"), ("day32", "240132"), ("feb30", "240230"), ("day00", "240100"), ("month00", "240010"), ("signed", "+1+2+3"),
-    ("spaced", " 40101"), ("feb29-nonleap", "230229"), ("apr31", "240431"), ("arabic", "٢٤٠١٠١"), ("short", "24011"),
+    ("month13", "241301"),
+    ("day32", "240132"),
+    ("feb30", "240230"),
+    ("day00", "240100"),
+    ("month00", "240010"),
+    ("signed", "+1+2+3"),
+    ("spaced", " 40101"),
+    ("feb29-nonleap", "230229"),
+    ("apr31", "240431"),
+    ("arabic", "٢٤٠١٠١"),
+    ("short", "24011"),
 ];
 
 pub const BAD_AMOUNTS: &[(&str, &str)] = &[
-    ("nan", "NaN"), ("inf", "inf"), ("neg-inf", "-inf"), ("infinity", "infinity"), ("exp", "1e3"), ("exp-neg", "1E-2"), ("plus", "+5"),
-    ("minus", "-5"), ("two-commas", "1,2,3"), ("lead-space", " 5"), ("trail-space", "5 "), ("hex", "0x1"), ("arabic", "٣,٥"),
-    ("empty", ""), ("only-comma", ","), ("dot-and-comma", "1.000,5"), ("underscore", "1_000"), ("too-long", "1234567890123456789,12"),
+    ("nan", "NaN"),
+    ("inf", "inf"),
+    ("neg-inf", "-inf"),
+    ("infinity", "infinity"),
+    ("exp", "1e3"),
+    ("exp-neg", "1E-2"),
+    ("plus", "+5"),
+    ("minus", "-5"),
+    ("two-commas", "1,2,3"),
+    ("lead-space", " 5"),
+    ("trail-space", "5 "),
+    ("hex", "0x1"),
+    ("arabic", "٣,٥"),
+    ("empty", ""),
+    ("only-comma", ","),
+    ("dot-and-comma", "1.000,5"),
+    ("underscore", "1_000"),
+    ("too-long", "1234567890123456789,12"),
     ("neg-zero", "-0"),
 ];
 
@@ -94,7 +241,11 @@ pub fn mutate(ty: &str, src: &mut Src) -> FieldCase {
     let spans = out.spans.clone();
     let origin: String;
     let pick_span = |src: &mut Src| -> Option<(usize, usize, String)> {
-        if spans.is_empty() { None } else { Some(spans[src.below(spans.len())].clone()) }
+        if spans.is_empty() {
+            None
+        } else {
+            Some(spans[src.below(spans.len())].clone())
+        }
     };
     match src.below(12) {
         0 => {
@@ -141,7 +292,16 @@ pub fn mutate(ty: &str, src: &mut Src) -> FieldCase {
             }
         }
         4 => {
-            let (n, t) = *src.pick(&[("alpha", "XYZ"), ("digits", "123"), ("slash", "/"), ("space", " "), ("long", "ABCDEFGHIJKLMNOPQRSTUVWXYZABCDEFGHIJKLMNOPQRSTUVWXYZ")]);
+            let (n, t) = *src.pick(&[
+                ("alpha", "XYZ"),
+                ("digits", "123"),
+                ("slash", "/"),
+                ("space", " "),
+                (
+                    "long",
+                    "ABCDEFGHIJKLMNOPQRSTUVWXYZABCDEFGHIJKLMNOPQRSTUVWXYZ",
+                ),
+            ]);
             text.push_str(t);
             origin = format!("trailing-{n}");
         }
@@ -194,7 +354,15 @@ pub fn mutate(ty: &str, src: &mut Src) -> FieldCase {
                 text.replace_range(a..b, d);
                 origin = format!("bad-amount-{n}");
             } else if let Some((a, b, _)) = spans.iter().find(|s| s.2 == "Bic").cloned() {
-                let (n, d) = *src.pick(&[("len7", "ABCDEF1"), ("len9", "ABCDEFG12"), ("len10", "ABCDEFG123"), ("len12", "ABCDEFGH1234"), ("digit-in-bank", "1BCDDEFF"), ("lower", "deutdeff"), ("punct", "DEUT-EFF")]);
+                let (n, d) = *src.pick(&[
+                    ("len7", "ABCDEF1"),
+                    ("len9", "ABCDEFG12"),
+                    ("len10", "ABCDEFG123"),
+                    ("len12", "ABCDEFGH1234"),
+                    ("digit-in-bank", "1BCDDEFF"),
+                    ("lower", "deutdeff"),
+                    ("punct", "DEUT-EFF"),
+                ]);
                 text.replace_range(a..b, d);
                 origin = format!("bad-bic-{n}");
             } else {
@@ -224,14 +392,22 @@ pub fn mutate(ty: &str, src: &mut Src) -> FieldCase {
             origin = "crlf".into();
         }
     }
-    FieldCase { ty: ty.to_string(), content: text, origin, comps: Vec::new() }
+    FieldCase {
+        ty: ty.to_string(),
+        content: text,
+        origin,
+        comps: Vec::new(),
+    }
 }
 
 pub fn random_content(ty: &str, src: &mut Src) -> FieldCase {
     const ALPHABETS: &[(&str, &str)] = &[
         ("swift", "ABCDEFGHIJKLMNOPQRSTUVWXYZ0123456789/-?:().,'+ \n"),
         ("digits", "0123456789,./\n"),
-        ("ascii", " !\"#$%&'()*+,-./0123456789:;<=>?@ABCXYZ[\\]^_`abcxyz{|}~\n\r"),
+        (
+            "ascii",
+            " !\"#$%&'()*+,-./0123456789:;<=>?@ABCXYZ[\\]^_`abcxyz{|}~\n\r",
+        ),
         ("nonascii", "AB12/é€٣５𝟙\u{301}\n"),
         ("struct", "/\n:,-+ABCD12"),
     ];
@@ -241,7 +417,12 @@ pub fn random_content(ty: &str, src: &mut Src) -> FieldCase {
     for _ in 0..n {
         s.push(src.pick_char(alpha));
     }
-    FieldCase { ty: ty.to_string(), content: s, origin: format!("random-{name}"), comps: Vec::new() }
+    FieldCase {
+        ty: ty.to_string(),
+        content: s,
+        origin: format!("random-{name}"),
+        comps: Vec::new(),
+    }
 }
 
 pub fn parse_case(c: &FieldCase) -> crate::lib_api::LibResult<FieldVal> {
@@ -258,9 +439,16 @@ pub fn split_swift(s: &str) -> Option<(String, String)> {
 /// `Ok(v)` must reproduce the input content (nothing ignored, truncated, renumbered).
 pub fn faithful(input: &str, v: &FieldVal) -> Result<(), String> {
     match split_swift(&v.swift) {
-        None => Err(format!("to_swift_string has no :TAG: prefix: {:?}", v.swift)),
+        None => Err(format!(
+            "to_swift_string has no :TAG: prefix: {:?}",
+            v.swift
+        )),
         Some((_, out)) => {
-            if approx_eq(input, &out) { Ok(()) } else { Err(format!("input {:?} re-emitted as {:?}", input, out)) }
+            if approx_eq(input, &out) {
+                Ok(())
+            } else {
+                Err(format!("input {:?} re-emitted as {:?}", input, out))
+            }
         }
     }
 }
@@ -281,18 +469,28 @@ fn comp_matches(c: &Comp, leaf: &Value) -> bool {
         (Comp::Num(s), Value::Number(n)) => {
             // the sign is carried by a separate written flag (37H `N`): compare magnitudes
             let t = n.to_string();
-            DecStr::parse(s).is_some() && DecStr::from_float_text(t.trim_start_matches('-')) == DecStr::parse(s)
+            DecStr::parse(s).is_some()
+                && DecStr::from_float_text(t.trim_start_matches('-')) == DecStr::parse(s)
         }
-        (Comp::Num(s), Value::String(l)) => s == l || (DecStr::parse(l).is_some() && DecStr::parse(l) == DecStr::parse(s)),
+        (Comp::Num(s), Value::String(l)) => {
+            s == l || (DecStr::parse(l).is_some() && DecStr::parse(l) == DecStr::parse(s))
+        }
         (Comp::Date6(s), Value::String(l)) => {
             if l == s {
                 return true;
             }
             // ISO yyyy-mm-dd
             let b = l.as_bytes();
-            l.len() == 10 && b[4] == b'-' && b[7] == b'-' && l[2..4] == s[0..2] && l[5..7] == s[2..4] && l[8..10] == s[4..6]
+            l.len() == 10
+                && b[4] == b'-'
+                && b[7] == b'-'
+                && l[2..4] == s[0..2]
+                && l[5..7] == s[2..4]
+                && l[8..10] == s[4..6]
         }
-        (Comp::Time4(s), Value::String(l)) => l == s || (l.len() >= 5 && l[0..2] == s[0..2] && &l[2..3] == ":" && l[3..5] == s[2..4]),
+        (Comp::Time4(s), Value::String(l)) => {
+            l == s || (l.len() >= 5 && l[0..2] == s[0..2] && &l[2..3] == ":" && l[3..5] == s[2..4])
+        }
         (Comp::Numbered(n, s), Value::String(l)) => l == s || *l == format!("{n}/{s}"),
         (Comp::Flag(s), Value::String(l)) => s == l,
         (Comp::Flag(_), Value::Bool(b)) => *b,
@@ -306,22 +504,47 @@ pub fn components_exposed(comps: &[Comp], json: &Value) -> Result<(), String> {
     let mut ls = Vec::new();
     leaves(json, &mut ls);
     let mut used = vec![false; ls.len()];
-    for c in comps {
-        let mut found = false;
-        for (i, l) in ls.iter().enumerate() {
-            if !used[i] && comp_matches(c, l) {
-                used[i] = true;
-                found = true;
-                break;
+    let mut matched = vec![false; comps.len()];
+    // pass 1: the most specific reading of each component (a slashed component with its
+    // slash, everything else verbatim); pass 2: the relaxed readings
+    for pass in 0..2 {
+        for (ci, c) in comps.iter().enumerate() {
+            if matched[ci] {
+                continue;
+            }
+            for (i, l) in ls.iter().enumerate() {
+                if used[i] {
+                    continue;
+                }
+                let ok = if pass == 0 {
+                    match (c, l) {
+                        (Comp::Slashed(s), Value::String(t)) => {
+                            t.strip_prefix('/') == Some(s.as_str())
+                        }
+                        (Comp::Numbered(n, s), Value::String(t)) => *t == format!("{n}/{s}"),
+                        (Comp::Text(s), Value::String(t)) => s == t,
+                        _ => false,
+                    }
+                } else {
+                    comp_matches(c, l)
+                };
+                if ok {
+                    used[i] = true;
+                    matched[ci] = true;
+                    break;
+                }
             }
         }
-        if !found {
-            return Err(format!("component {:?} not exposed in {}", c, json));
-        }
+    }
+    if let Some(ci) = matched.iter().position(|m| !m) {
+        return Err(format!("component {:?} not exposed in {}", comps[ci], json));
     }
     for (i, l) in ls.iter().enumerate() {
         if !used[i] && !matches!(l, Value::Bool(false)) {
-            return Err(format!("model exposes {} which was not written (components {:?})", l, comps));
+            return Err(format!(
+                "model exposes {} which was not written (components {:?})",
+                l, comps
+            ));
         }
     }
     Ok(())
@@ -329,4 +552,188 @@ pub fn components_exposed(comps: &[Comp], json: &Value) -> Result<(), String> {
 
 pub fn verdict_of(c: &FieldCase) -> Verdict {
     spec_of(&c.ty).g.verdict(&c.content)
+}
+
+/// Deterministic, systematic near-miss grid for one valid generated content: every part x
+/// every mutation class (the seeded `mutate` only samples this space).
+pub fn all_mutations(ty: &str, out: &crate::spec::GenOut) -> Vec<FieldCase> {
+    let mut v: Vec<(String, String)> = Vec::new();
+    let text = &out.text;
+    for (a, b, l) in &out.spans {
+        let (a, b) = (*a, *b);
+        let part = &text[a..b];
+        let last = part.chars().last().filter(|c| *c != '\n').unwrap_or('X');
+        for extra in [1usize, 2, 20] {
+            let mut t = text.clone();
+            t.insert_str(b, &std::iter::repeat(last).take(extra).collect::<String>());
+            v.push((format!("lengthen:{l}"), t));
+        }
+        // boundary-exact: fill the part (its last line) up to its documented maximum, and one beyond
+        if let Some(max) = part_max(l) {
+            let cur = part.rsplit('\n').next().unwrap_or("").chars().count();
+            for target in [max, max + 1] {
+                if target > cur {
+                    let mut t = text.clone();
+                    t.insert_str(
+                        b,
+                        &std::iter::repeat(if last == ' ' || last == '/' {
+                            'X'
+                        } else {
+                            last
+                        })
+                        .take(target - cur)
+                        .collect::<String>(),
+                    );
+                    v.push((
+                        format!(
+                            "{}:{l}",
+                            if target == max {
+                                "fill-to-max"
+                            } else {
+                                "fill-to-max+1"
+                            }
+                        ),
+                        t,
+                    ));
+                }
+            }
+        }
+        // line count boundary for k*Nx parts
+        if let Some((max_lines, _)) = lines_dims(l) {
+            let cur = part.split('\n').count();
+            for target in [max_lines, max_lines + 1] {
+                if target > cur {
+                    let mut t = text.clone();
+                    t.insert_str(b, &"\nLINE".repeat(target - cur));
+                    v.push((
+                        format!(
+                            "{}:{l}",
+                            if target == max_lines {
+                                "lines-to-max"
+                            } else {
+                                "lines-to-max+1"
+                            }
+                        ),
+                        t,
+                    ));
+                }
+            }
+        }
+        for cut in [b - a, 1.min(b - a), (b - a) / 2] {
+            if cut > 0 {
+                let mut t = text.clone();
+                t.replace_range(b - cut..b, "");
+                v.push((format!("shorten:{l}"), t));
+            }
+        }
+        for (name, rep) in SUBST {
+            for off in [a, b - 1, a + (b - a) / 2] {
+                let mut t = text.clone();
+                t.replace_range(off..off + 1, rep);
+                v.push((format!("subst-{name}:{l}"), t));
+            }
+        }
+        if l == "Date6" {
+            for (n, d) in BAD_DATES {
+                let mut t = text.clone();
+                t.replace_range(a..b, d);
+                v.push((format!("bad-date-{n}"), t));
+            }
+        }
+        if l.starts_with("Amount") {
+            for (n, d) in BAD_AMOUNTS {
+                let mut t = text.clone();
+                t.replace_range(a..b, d);
+                v.push((format!("bad-amount-{n}"), t));
+            }
+        }
+        if l == "Bic" {
+            for (n, d) in [
+                ("len7", "ABCDEF1"),
+                ("len9", "ABCDEFG12"),
+                ("len10", "ABCDEFG123"),
+                ("len12", "ABCDEFGH1234"),
+                ("digit-in-bank", "1BCDDEFF"),
+                ("lower", "deutdeff"),
+                ("punct", "DEUT-EFF"),
+            ] {
+                let mut t = text.clone();
+                t.replace_range(a..b, d);
+                v.push((format!("bad-bic-{n}"), t));
+            }
+        }
+    }
+    for (n, t) in [
+        ("alpha", "XYZ"),
+        ("digits", "123"),
+        ("slash", "/"),
+        ("space", " "),
+        (
+            "long",
+            "ABCDEFGHIJKLMNOPQRSTUVWXYZABCDEFGHIJKLMNOPQRSTUVWXYZ",
+        ),
+    ] {
+        v.push((format!("trailing-{n}"), format!("{text}{t}")));
+    }
+    for k in [1usize, 2, 5, 40] {
+        let mut t = text.clone();
+        for i in 0..k {
+            t.push_str(&format!("\nEXTRA LINE {i}"));
+        }
+        v.push((
+            format!("extra-lines-{}", if k >= 5 { "many" } else { "few" }),
+            t,
+        ));
+    }
+    v.push(("leading-line".into(), format!("LEADING LINE\n{text}")));
+    if let Some(i) = text.find('\n') {
+        let mut t = text.clone();
+        t.insert(i, '\n');
+        v.push(("blank-line-inside".into(), t));
+    }
+    v.push(("leading-newline".into(), format!("\n{text}")));
+    v.push(("crlf".into(), text.replace('\n', "\r\n")));
+    v.push(("empty".into(), String::new()));
+    for i in 0..text.len() {
+        let mut t = text.clone();
+        t.remove(i);
+        v.push(("delete-char".into(), t));
+    }
+    v.into_iter()
+        .map(|(origin, content)| FieldCase {
+            ty: ty.to_string(),
+            content,
+            origin,
+            comps: Vec::new(),
+        })
+        .collect()
+}
+
+/// documented maximum length of a part, from its span label (`RunX1-16`, `Uint5`, `Amount15`, `Lines4x35`, ...)
+pub fn part_max(label: &str) -> Option<usize> {
+    if let Some(r) = label.strip_prefix("Run") {
+        return r.rsplit('-').next()?.parse().ok();
+    }
+    if let Some(r) = label.strip_prefix("Uint") {
+        return r.parse().ok();
+    }
+    if let Some(r) = label.strip_prefix("Amount") {
+        return r.parse().ok();
+    }
+    if let Some((_, w)) = lines_dims(label) {
+        return Some(w);
+    }
+    match label {
+        "SlashRun" => Some(35),
+        "PartyId" => Some(37),
+        "Ref" => Some(16),
+        "AlphaStartRun" => Some(11),
+        _ => None,
+    }
+}
+
+pub fn lines_dims(label: &str) -> Option<(usize, usize)> {
+    let r = label.strip_prefix("Lines")?;
+    let (a, b) = r.split_once('x')?;
+    Some((a.parse().ok()?, b.parse().ok()?))
 }
